@@ -449,3 +449,7 @@ fn maybe_create_scmp_reply(
         scmp,
     )))
 }
+
+#[cfg(kani)]
+#[path = "/verif/kani/pocketscion/local_sim.rs"]
+mod verif_local_sim;
